@@ -6,7 +6,7 @@ ALL = [f"C{i:02d}" for i in range(1, 21)]
 
 # pid -> dict(text, note, technique, design_ref, category)
 CHECKS = {}
-COMMON_GEO_NOTE = "8 spacetime classes x 1 seed (+2 generic) in quick, x 4 seeds in thorough; fd_order 2/4/6/8 and interior/face/edge/corner probes on a subset; one probe point per grid; a difference above the tolerance is re-examined at half the spacing and accepted only if it shrinks at the order of the scheme; every key is also evaluated after each pre-history from the cache model (first requests of the shortest two-request histories reaching every branch), with everything kept cached. The vacuum=True shortcuts are not exercised (a generic jet is not Ricci-flat). Values are exact rationals lifted from 10 primes. Trusted: TLC, CRT/rational reconstruction (self-tested each run), the polynomial field builder (its K field is cross-checked against the oracle's K at the probe)."
+COMMON_GEO_NOTE = "8 spacetime classes x 1 seed (+2 generic) in quick, x 4 seeds in thorough; fd_order 2/4/6/8 and interior/face/edge/corner probes on a subset; one probe point per grid; a difference above the tolerance is re-examined at half the spacing and accepted only if it shrinks at the order of the scheme; every key is also evaluated after each pre-history from the cache model (first requests of the shortest two-request histories reaching every branch), with everything kept cached. The vacuum=True shortcuts are exercised on two exact vacuum solutions expanded at rational points (Schwarzschild in Painleve-Gullstrand coordinates: unit lapse, shift and K non-zero; in isotropic coordinates: non-unit lapse), whose Ricci-flatness TLC confirms on the supplied jets; vacuum with Lambda != 0 is not exercised. Values are exact rationals lifted from 10 primes. Trusted: TLC, CRT/rational reconstruction (self-tested each run), the polynomial field builder (its K field is cross-checked against the oracle's K at the probe)."
 CHECKS["C07"] = dict(
  text="Stencil.tla derives every row of every derivative operator (order 2/4/6/8 x one-sided/periodic/symmetric x N x i) from Lagrange's formula in exact rationals; TLC proves on the spec exactness on polynomials of degree <= p, circulant/mirror structure and support, and enumerates every state; every state is compared with the corresponding row of the complete operator matrix of the real d3x/d3y/d3z (unit-vector probing on non-cubic grids, two spacing triples) and the tensor variants with its component-wise application. By linearity this decides the property for all input fields within the enumerated N range (exhaustive).",
  note="N from the minimum supported size to +8 (quick) / +40 (thorough); rows depend on i only through min(i, N-1-i, p/2), so larger N adds no new row classes. Float comparison within 64 ulp of the exact weight / h. Trusted: TLC, numpy.",
@@ -64,22 +64,22 @@ CHECKS["C15"] = dict(
  design_ref="DESIGN.md 4.7, 5/C15")
 CHECKS["C04"] = dict(
  text='ThreePlusOne.tla computes, from the jets of lapse, shift and spatial metric in (t,x,y,z), the 4-metric, its inverse and determinant, the 4-D Christoffel symbols, Riemann in three index positions, Ricci, scalar, Einstein and Kretschmann from the textbook 4-D definitions in exact arithmetic modulo primes; TLC checks Riemann symmetries, first Bianchi identity, metric compatibility, g g^-1 = 1 and det g = -alpha^2 det gamma on every oracle state. The real AurelCore is run on polynomial fields carrying the same jets (K_ij evaluated from its definition, T := (G + Lambda g)/kappa from the oracle) and compared at the probe point.',
- note="8 spacetime classes x 1 seed (+2 generic) in quick, x 4 seeds in thorough; fd_order 2/4/6/8 and interior/face/edge/corner probes on a subset; one probe point per grid; a difference above the tolerance is re-examined at half the spacing and accepted only if it shrinks at the order of the scheme. The vacuum=True shortcuts are not exercised (a generic jet is not Ricci-flat). Values are exact rationals lifted from 10 primes. Trusted: TLC, CRT/rational reconstruction (self-tested each run), the polynomial field builder (its K field is cross-checked against the oracle's K at the probe).",
+ note="8 spacetime classes x 1 seed (+2 generic) in quick, x 4 seeds in thorough; fd_order 2/4/6/8 and interior/face/edge/corner probes on a subset; one probe point per grid; a difference above the tolerance is re-examined at half the spacing and accepted only if it shrinks at the order of the scheme. The vacuum=True shortcuts are exercised on two exact vacuum solutions expanded at rational points (Schwarzschild in Painleve-Gullstrand coordinates: unit lapse, shift and K non-zero; in isotropic coordinates: non-unit lapse), whose Ricci-flatness TLC confirms on the supplied jets; vacuum with Lambda != 0 is not exercised. Values are exact rationals lifted from 10 primes. Trusted: TLC, CRT/rational reconstruction (self-tested each run), the polynomial field builder (its K field is cross-checked against the oracle's K at the probe).",
  technique="TLA+ textbook 3+1/4-D tensor calculus on jets in exact modular arithmetic evaluated by TLC (oracle validated by identities), lifted by CRT; real code run on polynomial fields with the same jets and compared at the probe point with convergence re-examination",
  design_ref="DESIGN.md 4.7, 5/C04")
 CHECKS["C06"] = dict(
  text='ThreePlusOne.tla: every smooth 4-metric is an exact solution for kappa T := G + Lambda g; TLC checks at spec level that the Hamiltonian and momentum constraints of the oracle vanish identically, and computes the TRUE coordinate-time derivatives of K, phi, gamma^ij, gammatilde_ij, Atilde_ij, Gammatilde^i by differentiating the jets of their definitions (no evolution equation). The real Hamiltonian/Momentum (must vanish), rho_n_fromHam, fluxup3_n_fromMom and the six dt-quantities are compared at the probe point for any lapse and shift, Lambda in {0, 1/5}.',
- note="8 spacetime classes x 1 seed (+2 generic) in quick, x 4 seeds in thorough; fd_order 2/4/6/8 and interior/face/edge/corner probes on a subset; one probe point per grid; a difference above the tolerance is re-examined at half the spacing and accepted only if it shrinks at the order of the scheme. The vacuum=True shortcuts are not exercised (a generic jet is not Ricci-flat). Values are exact rationals lifted from 10 primes. Trusted: TLC, CRT/rational reconstruction (self-tested each run), the polynomial field builder (its K field is cross-checked against the oracle's K at the probe).",
+ note="8 spacetime classes x 1 seed (+2 generic) in quick, x 4 seeds in thorough; fd_order 2/4/6/8 and interior/face/edge/corner probes on a subset; one probe point per grid; a difference above the tolerance is re-examined at half the spacing and accepted only if it shrinks at the order of the scheme. The vacuum=True shortcuts are exercised on two exact vacuum solutions expanded at rational points (Schwarzschild in Painleve-Gullstrand coordinates: unit lapse, shift and K non-zero; in isotropic coordinates: non-unit lapse), whose Ricci-flatness TLC confirms on the supplied jets; vacuum with Lambda != 0 is not exercised. Values are exact rationals lifted from 10 primes. Trusted: TLC, CRT/rational reconstruction (self-tested each run), the polynomial field builder (its K field is cross-checked against the oracle's K at the probe).",
  technique="TLA+ textbook 3+1/4-D tensor calculus on jets in exact modular arithmetic evaluated by TLC (oracle validated by identities), lifted by CRT; real code run on polynomial fields with the same jets and compared at the probe point with convergence re-examination",
  design_ref="DESIGN.md 4.7, 5/C06")
 CHECKS["C10"] = dict(
  text="ThreePlusOne.tla computes the Weyl tensor (Riemann minus Ricci parts) and E_ij, B_ij as its contractions with the unit normal; TLC checks trace-freeness, Riemann symmetries of Weyl, symmetry/trace-freeness of E and B. The real st_Weyl_down4 is compared in both cache states (from E/B; from a cached Riemann tensor), eweyl_n/bweyl_n and eweyl_u/bweyl_u with the oracle's contractions, Weyl_Psi with the oracle's Weyl tensor on the returned null tetrad, the triad/tetrad for orthonormality and I, J for tetrad independence where both tetrads are orthonormal.",
- note="8 spacetime classes x 1 seed (+2 generic) in quick, x 4 seeds in thorough; fd_order 2/4/6/8 and interior/face/edge/corner probes on a subset; one probe point per grid; a difference above the tolerance is re-examined at half the spacing and accepted only if it shrinks at the order of the scheme. The vacuum=True shortcuts are not exercised (a generic jet is not Ricci-flat). Values are exact rationals lifted from 10 primes. Trusted: TLC, CRT/rational reconstruction (self-tested each run), the polynomial field builder (its K field is cross-checked against the oracle's K at the probe).",
+ note="8 spacetime classes x 1 seed (+2 generic) in quick, x 4 seeds in thorough; fd_order 2/4/6/8 and interior/face/edge/corner probes on a subset; one probe point per grid; a difference above the tolerance is re-examined at half the spacing and accepted only if it shrinks at the order of the scheme. The vacuum=True shortcuts are exercised on two exact vacuum solutions expanded at rational points (Schwarzschild in Painleve-Gullstrand coordinates: unit lapse, shift and K non-zero; in isotropic coordinates: non-unit lapse), whose Ricci-flatness TLC confirms on the supplied jets; vacuum with Lambda != 0 is not exercised. Values are exact rationals lifted from 10 primes. Trusted: TLC, CRT/rational reconstruction (self-tested each run), the polynomial field builder (its K field is cross-checked against the oracle's K at the probe).",
  technique="TLA+ textbook 3+1/4-D tensor calculus on jets in exact modular arithmetic evaluated by TLC (oracle validated by identities), lifted by CRT; real code run on polynomial fields with the same jets and compared at the probe point with convergence re-examination",
  design_ref="DESIGN.md 4.7, 5/C10")
 CHECKS["C19"] = dict(
  text="ThreePlusOne.tla gives, for observers at rest in the slicing, theta = -K, sigma_ij = -A_ij, 1/2 A_ij A^ij, a_i = d_i ln(alpha), n^mu and nabla_mu n_nu from the definitions (time-dependent non-unit lapse, non-zero shift); the real uup4, theta, sheardown4, shear2, omegadown4, omega2, accelerationdown4, st_covd_udown4 are compared at the probe point and a_mu n^mu = 0, sigma_mu_nu n^nu = 0 evaluated on the code's outputs.",
- note="8 spacetime classes x 1 seed (+2 generic) in quick, x 4 seeds in thorough; fd_order 2/4/6/8 and interior/face/edge/corner probes on a subset; one probe point per grid; a difference above the tolerance is re-examined at half the spacing and accepted only if it shrinks at the order of the scheme. The vacuum=True shortcuts are not exercised (a generic jet is not Ricci-flat). Values are exact rationals lifted from 10 primes. Trusted: TLC, CRT/rational reconstruction (self-tested each run), the polynomial field builder (its K field is cross-checked against the oracle's K at the probe).",
+ note="8 spacetime classes x 1 seed (+2 generic) in quick, x 4 seeds in thorough; fd_order 2/4/6/8 and interior/face/edge/corner probes on a subset; one probe point per grid; a difference above the tolerance is re-examined at half the spacing and accepted only if it shrinks at the order of the scheme. The vacuum=True shortcuts are exercised on two exact vacuum solutions expanded at rational points (Schwarzschild in Painleve-Gullstrand coordinates: unit lapse, shift and K non-zero; in isotropic coordinates: non-unit lapse), whose Ricci-flatness TLC confirms on the supplied jets; vacuum with Lambda != 0 is not exercised. Values are exact rationals lifted from 10 primes. Trusted: TLC, CRT/rational reconstruction (self-tested each run), the polynomial field builder (its K field is cross-checked against the oracle's K at the probe).",
  technique="TLA+ textbook 3+1/4-D tensor calculus on jets in exact modular arithmetic evaluated by TLC (oracle validated by identities), lifted by CRT; real code run on polynomial fields with the same jets and compared at the probe point with convergence re-examination",
  design_ref="DESIGN.md 4.7, 5/C19")
 CHECKS["C05"] = dict(
